@@ -9,7 +9,48 @@ VALUE = 'laythe_core::value::Value'
 END_KINDS = ('vm_error', 'vm_exit', 'internal_error')
 
 
-class ValView:
+QNAN = 0x7ffc_0000_0000_0000
+TAG_OBJ = 0xc000_0000_0000_0000 | QNAN
+
+
+class NanValView:
+    """reference decoding of a NaN-boxed Value from the documented bit layout"""
+
+    def __init__(self, e, P, v):
+        bits = v.field(e, 0, 'u64').get(e)
+        self.bits = bits
+        self.is_num = (bits & QNAN) != QNAN
+        self.is_nil = bits == (QNAN | 1)
+        self.is_bool = z3.Or(bits == (QNAN | 2), bits == (QNAN | 3))
+        self.boolean = bits == (QNAN | 3)
+        self.is_undef = bits == (QNAN | 4)
+        self.is_obj = (bits & TAG_OBJ) == TAG_OBJ
+        self.num = z3.fpBVToFP(bits, F64)
+        self.obj = AbsObj(bits & ~z3.BitVecVal(TAG_OBJ, 64), 'ObjectRef')
+        self.tag = None
+
+    def well_formed(self):
+        canonical_nan = z3.Or(self.bits == 0x7ff8000000000000, self.bits == 0xfff8000000000000)
+        return z3.And(z3.Or(self.is_num, self.is_nil, self.is_bool, self.is_undef, self.is_obj),
+                      z3.Implies(self.is_obj, z3.And(self.obj.id != 0, (self.obj.id & 7) == 0)),
+                      z3.Implies(z3.And(self.is_num, z3.fpIsNaN(self.num)), canonical_nan))
+
+    def is_kind(self, P, kname):
+        k = P.enum_def('laythe_core::object::ObjectKind').vindex[kname]
+        return z3.And(self.is_obj, kind_of(self.obj.id) == k)
+
+    def falsey(self):
+        return z3.Or(self.is_nil, z3.And(self.is_bool, z3.Not(self.boolean)))
+
+
+def ValView(e, P, v):
+    if 'nan_boxing' in P.features:
+        vw = NanValView(e, P, v)
+        return vw
+    return EnumValView(e, P, v)
+
+
+class EnumValView:
     """reference reading of an enum-represented Value (tag + payload), independent of Value's own methods"""
 
     def __init__(self, e, P, v):
@@ -45,6 +86,9 @@ class ValView:
     def falsey(self):
         return z3.Or(self.is_nil, z3.And(self.is_bool, z3.Not(self.boolean)))
 
+    def well_formed(self):
+        return z3.BoolVal(True)
+
 
 def _run_op(opname, check_fn, res, tier, program='vm', nops=2):
     P = get_program(program)
@@ -61,6 +105,7 @@ def _run_op(opname, check_fn, res, tier, program='vm', nops=2):
             v = st.stack.load(e, z3.simplify(st.sp - 1 - i))
             vv = ValView(e, P, v)
             e.assume(z3.Not(vv.is_undef))     # Undefined never reaches an operator (module-symbol reads raise first)
+            e.assume(vv.well_formed())
             ops.append(vv)
         # ops[0] is the top of the stack (right operand), ops[1] the one below (left operand)
         outcome = 'ok'
@@ -186,7 +231,12 @@ def _eq_check(opname):
         want = _lang_equal(P, l, r)
         if opname == 'op_not_equal':
             want = z3.Not(want)
-        e.check(z3.And(res.is_bool, res.boolean == want), f'{opname}: language equality')
+        both_num = z3.And(l.is_num, r.is_num)
+        zeros = z3.And(both_num, z3.fpIsZero(l.num), z3.fpIsZero(r.num), z3.fpIsNegative(l.num) != z3.fpIsNegative(r.num))
+        nans = z3.And(both_num, z3.fpIsNaN(l.num), z3.fpIsNaN(r.num))
+        for cname, cc in (('0 and -0', zeros), ('NaN with NaN', nans), ('other numbers', z3.And(both_num, z3.Not(zeros), z3.Not(nans))),
+                          ('non-numbers', z3.Not(both_num))):
+            e.check(z3.Implies(cc, z3.And(res.is_bool, res.boolean == want)), f'{opname}: language equality [{cname}]')
         return {'outcome': 'value'}
     return chk
 
@@ -215,14 +265,16 @@ def _negate_check(e, P, W, st, ops, outcome, sig, sp2, ip2, rt_key):
     return {'outcome': 'value'}
 
 
-def _mk(opname, chk, nops=2, tiers=('quick', 'thorough')):
-    @obligation(f'C01.K1.{opname}', 'C01', tiers=tiers, programs=('vm',))
-    def ob(res, tier, opname=opname, chk=chk, nops=nops):
+def _mk(opname, chk, nops=2, tiers=('quick', 'thorough'), prop='C01', program='vm'):
+    oid = f'C01.K1.{opname}' if prop == 'C01' else f'C14.D2.{opname}'
+
+    @obligation(oid, prop, tiers=tiers, programs=(program,))
+    def ob(res, tier, opname=opname, chk=chk, nops=nops, program=program):
         res.bounds = {'operands': 'every Value (all 2^64 number bit patterns, bool, nil, any object kind and identity)'}
         res.assumptions = ['operands are not the internal Undefined marker',
                            'object references are abstract identities with a kind; strings are interned (C09)',
                            'the stack has room for the pushes of one op (C06.K2)']
-        _run_op(opname, chk, res, tier, nops=nops)
+        _run_op(opname, chk, res, tier, program=program, nops=nops)
     ob.__doc__ = f'{opname}: result, operand order, stack and ip effect, error class for every operand pair'
     return ob
 
@@ -272,15 +324,30 @@ def _branch_check(opname):
     return chk
 
 
-def _mk2(opname, nops):
-    @obligation(f'C01.K2.{opname}', 'C01', programs=('vm',))
-    def ob(res, tier, opname=opname, nops=nops):
+def _mk2(opname, nops, prop='C01', program='vm'):
+    oid = f'C01.K2.{opname}' if prop == 'C01' else f'C14.D2.{opname}'
+
+    @obligation(oid, prop, programs=(program,))
+    def ob(res, tier, opname=opname, nops=nops, program=program):
         res.bounds = {'operand': 'every 16-bit distance, every Value on top of the stack, any ip'}
         res.assumptions = ['operands are not the internal Undefined marker']
-        _run_op(opname, _branch_check(opname), res, tier, nops=nops)
+        _run_op(opname, _branch_check(opname), res, tier, program=program, nops=nops)
     ob.__doc__ = f'{opname}: ip and stack effect for every operand and every condition value'
     return ob
 
 
 for _op, _n in (('op_jump', 0), ('op_loop', 0), ('op_jump_if_false', 1), ('op_and', 1), ('op_or', 1)):
     _mk2(_op, _n)
+
+
+# ---------------------------------------------------------------------------------------------- C14.D2: the same obligations on the NaN-boxed build
+for _op in ARITH:
+    _mk(_op, _arith_check(_op), prop='C14', program='vm-nan')
+for _op in CMPS:
+    _mk(_op, _cmp_check(_op), prop='C14', program='vm-nan')
+_mk('op_equal', _eq_check('op_equal'), prop='C14', program='vm-nan')
+_mk('op_not_equal', _eq_check('op_not_equal'), prop='C14', program='vm-nan')
+_mk('op_not', _not_check, nops=1, prop='C14', program='vm-nan')
+_mk('op_negate', _negate_check, nops=1, prop='C14', program='vm-nan')
+for _op, _n in (('op_jump_if_false', 1), ('op_and', 1), ('op_or', 1)):
+    _mk2(_op, _n, prop='C14', program='vm-nan')
